@@ -2204,7 +2204,7 @@ fn run_fwd_case(out: &mut Out, stream: bool, max: usize, pool: &[Vec<u8>], scrip
     }
 }
 
-fn run_forwarder_stream(cfg: &Cfg, out: &mut Out) {
+pub(crate) fn run_forwarder_stream(cfg: &Cfg, out: &mut Out) {
     // corpus: the shapes that tear a frame
     let mut r0 = Rng::new(0xC09F);
     let (max_b, pool_b) = fwd_pool(&mut r0, true, true);
